@@ -82,49 +82,59 @@ func buildShape(f *fe.Fixture, p *drv.FakeProxy, mode string, rng *rand.Rand, s 
 		}
 	}
 	fresh := func() []byte { return drv.GenData(rng, 20+rng.Intn(400), rng.Intn(3)) }
-	root := &pb.Directory{}
-	child := &pb.Directory{}
-	var treeState string
-	n := 0
-	for _, r := range s.Refs {
-		n++
-		switch r.Cat {
-		case "fileNoInline":
+	// "otherSize" is a reference whose hash names a stored blob and whose size is another one: half of the
+	// time the stored blob is one that the same ActionResult also references correctly
+	var presentSeen []*pb.Digest
+	placed := map[int]*pb.Digest{}
+	placedLocal := map[int]bool{}
+	for pass := 0; pass < 2; pass++ {
+		for i, r := range s.Refs {
+			if r.Cat == "fileInline" || r.Cat == "treeBlob" || (pass == 0) != (r.State == "present") {
+				continue
+			}
+			if r.State == "otherSize" && len(presentSeen) > 0 && rng.Intn(2) == 0 {
+				b := presentSeen[rng.Intn(len(presentSeen))]
+				placed[i] = &pb.Digest{Hash: b.Hash, SizeBytes: b.SizeBytes + 1 + int64(rng.Intn(3))}
+				continue
+			}
 			d, l, err := place(f, p, mode, rng, r.State, fresh())
 			if err != nil {
 				return nil, nil, err
 			}
+			placed[i], placedLocal[i] = d, l
+			if r.State == "present" {
+				presentSeen = append(presentSeen, d)
+			}
+		}
+	}
+	root := &pb.Directory{}
+	child := &pb.Directory{}
+	var treeState string
+	n := 0
+	for ri, r := range s.Refs {
+		n++
+		switch r.Cat {
+		case "fileNoInline":
+			d, l := placed[ri], placedLocal[ri]
 			note(d, l)
 			ar.OutputFiles = append(ar.OutputFiles, &pb.OutputFile{Path: fmt.Sprintf("out/f%d", n), Digest: d})
 		case "fileInline":
 			c := fresh()
 			ar.OutputFiles = append(ar.OutputFiles, &pb.OutputFile{Path: fmt.Sprintf("out/i%d", n), Digest: &pb.Digest{Hash: drv.MkBlob(c).Hash, SizeBytes: int64(len(c))}, Contents: c})
 		case "treeRootFile":
-			d, l, err := place(f, p, mode, rng, r.State, fresh())
-			if err != nil {
-				return nil, nil, err
-			}
+			d, l := placed[ri], placedLocal[ri]
 			note(d, l)
 			root.Files = append(root.Files, &pb.FileNode{Name: fmt.Sprintf("r%d", n), Digest: d})
 		case "treeChildFile":
-			d, l, err := place(f, p, mode, rng, r.State, fresh())
-			if err != nil {
-				return nil, nil, err
-			}
+			d, l := placed[ri], placedLocal[ri]
 			note(d, l)
 			child.Files = append(child.Files, &pb.FileNode{Name: fmt.Sprintf("c%d", n), Digest: d})
 		case "stdoutDigest":
-			d, l, err := place(f, p, mode, rng, r.State, fresh())
-			if err != nil {
-				return nil, nil, err
-			}
+			d, l := placed[ri], placedLocal[ri]
 			note(d, l)
 			ar.StdoutDigest = d
 		case "stderrDigest":
-			d, l, err := place(f, p, mode, rng, r.State, fresh())
-			if err != nil {
-				return nil, nil, err
-			}
+			d, l := placed[ri], placedLocal[ri]
 			note(d, l)
 			ar.StderrDigest = d
 		case "treeBlob":
